@@ -1,0 +1,77 @@
+//! Verification hooks. Only compiled with `--cfg in_toto_verif`.
+//!
+//! Nothing in here changes the behaviour of the library: it provides a
+//! thread-local event sink that is a no-op unless a recorder is installed,
+//! a clock override that is `None` unless set, and re-exports of a few
+//! crate-private entry points so that an external harness can drive them.
+
+use std::cell::RefCell;
+use std::collections::HashMap;
+
+use chrono::{DateTime, Utc};
+
+use crate::models::supply_chain_item::SupplyChainItem;
+use crate::models::LinkMetadata;
+use crate::Result;
+
+thread_local! {
+    static SINK: RefCell<Option<Vec<serde_json::Value>>> = const { RefCell::new(None) };
+    static NOW: RefCell<Option<DateTime<Utc>>> = const { RefCell::new(None) };
+}
+
+/// Install an empty recorder on this thread.
+pub fn start_recording() {
+    SINK.with(|s| *s.borrow_mut() = Some(Vec::new()));
+}
+
+/// Remove the recorder of this thread and return what it collected.
+pub fn take_events() -> Vec<serde_json::Value> {
+    SINK.with(|s| s.borrow_mut().take().unwrap_or_default())
+}
+
+/// Record one event (no-op without a recorder).
+pub fn emit(ev: serde_json::Value) {
+    SINK.with(|s| {
+        if let Some(v) = s.borrow_mut().as_mut() {
+            v.push(ev);
+        }
+    });
+}
+
+/// Is a recorder installed on this thread?
+pub fn recording() -> bool {
+    SINK.with(|s| s.borrow().is_some())
+}
+
+/// Pin (or unpin) the verification clock of this thread.
+pub fn set_now(now: Option<DateTime<Utc>>) {
+    NOW.with(|n| *n.borrow_mut() = now);
+}
+
+/// The pinned verification clock, if any.
+pub fn now_override() -> Option<DateTime<Utc>> {
+    NOW.with(|n| *n.borrow())
+}
+
+/// Re-export of the crate-private per-item artifact rule application.
+pub fn apply_rules(
+    item: &Box<dyn SupplyChainItem>,
+    reduced_link_files: &HashMap<String, LinkMetadata>,
+) -> Result<()> {
+    crate::rulelib::apply_rules_on_link(item, reduced_link_files)
+}
+
+/// Re-export of the crate-private DSSE v1 pre-authentication encoding.
+pub fn pae_pack(payload_type: String, payload: &[u8]) -> Vec<u8> {
+    crate::models::verif_dsse::DSSEVersion::V1.pack(payload, payload_type)
+}
+
+/// Re-export of the crate-private DSSE v1 pre-authentication decoding.
+pub fn pae_unpack(bytes: &[u8]) -> Result<(Vec<u8>, String)> {
+    crate::models::verif_dsse::DSSEVersion::V1.unpack(bytes)
+}
+
+/// Re-export of the crate-private DSSE auto-detecting decoding.
+pub fn pae_try_unpack(bytes: &[u8]) -> Result<(Vec<u8>, String)> {
+    crate::models::verif_dsse::DSSEVersion::try_unpack(bytes)
+}
